@@ -289,6 +289,7 @@ struct Tcp
 			s.sock->async_wait(tcp::socket::wait_read, [this, sp, g](error_code const& ec) {
 				++ctx.handlers;
 				if (g != sp->gen) return;
+				if (sp->side == 1 && accept_armed[sp->conn]) return; // object handed back to the acceptor meanwhile
 				sp->read_pending = false;
 				if (ec) { on_read(*sp, ec, 0, g); return; }
 				// non-blocking read now
@@ -440,6 +441,7 @@ struct Tcp
 		auto go = [this, &s]() {
 			if (s.gen > 0 || s.closed_by_us) { new_generation(s); ctx.hit("reconnect"); }
 			else s.gen = 1;
+			s.writer_busy = true; // until the connect handler has run
 			error_code ec;
 			if (!s.sock->is_open())
 			{
@@ -470,7 +472,7 @@ struct Tcp
 			{
 				error_code lec;
 				tcp::endpoint const le = s.sock->local_endpoint(lec);
-				if (!lec) connector_ports[s.conn].insert(le.port());
+				if (!lec) { connector_ports[s.conn].insert(le.port()); s.port = le.port(); }
 			}
 		};
 		if (delay > 0)
